@@ -19,6 +19,10 @@ total = caught = own = 0
 for f in sorted(glob.glob(os.path.join(here, 'seeded', '*', 'meta.json'))):
     m = json.load(open(f))
     name = os.path.basename(os.path.dirname(f))
+    if m.get('superseded_by'):
+        rows.append('| %s | %s | %s | %s | %s |' % (name, cell(m.get('summary'), 150), cell(m.get('needs'), 110),
+                                                    cell('superseded: ' + m['superseded_by'], 160), ''))
+        continue
     total += 1
     by = sorted(k for k, v in m.get('checks_run', {}).items() if v.get('caught'))
     missed = sorted(k for k, v in m.get('checks_run', {}).items() if not v.get('caught'))
